@@ -137,8 +137,13 @@ fn poison<T: Flt>() -> T {
 fn run1<T: Flt>(src: &mut Src, obs: &mut Obs) -> Result<(), Fail> {
     obs.class("dim:1");
     obs.class(format!("T:{}", T::NAME));
-    let c = Case1::gen::<T>(src, &Opts1::default());
+    // trailing axes of length 0 included: out-of-range must be reported even when there is nothing to compute
+    let o = Opts1 { lens: &[0, 1, 1, 2, 2, 3, 3], spline: crate::splinegen::SplineOpts { lens: &[0, 1, 1, 2, 2, 3], ..Default::default() }, ..Opts1::default() };
+    let c = Case1::gen::<T>(src, &o);
     c.classes(obs);
+    if c.lanes == 0 {
+        obs.class("lanes:0");
+    }
     let interp = c.build::<T>(false)?;
     let ep = src.below(5);
     let ep = if ep == 0 && c.dd != DDim::S1 { 1 } else { ep };
